@@ -441,7 +441,12 @@ def run(ck):
     if len(st.kind_codes) != ALL_KINDS or len(set(st.kind_codes.values())) != ALL_KINDS:
         ck.add_violation('kinds:not-distinct', 'the harness printed %d kinds with %d distinct codes (expected %d)' % (len(st.kind_codes), len(set(st.kind_codes.values())), ALL_KINDS),
                          {'kinds': st.kind_codes}, found_input=False)
-    bad_h = [(a, b) for a in st.dhash for b in st.dhash if a < b and feq(a, b) and st.dhash[a] != st.dhash[b]]
+    groups = {}
+    for bits, hsh in st.dhash.items():       # == classes of the printed constants: by value, NaN equals nothing
+        v = dbl(bits)
+        if v == v:
+            groups.setdefault(0.0 if v == 0 else v, []).append((bits, hsh))
+    bad_h = [g for g in groups.values() if len({h for _, h in g}) > 1]
     if bad_h or 0 not in st.dhash or (1 << 63) not in st.dhash:
         ck.add_violation('hash-prim:double', 'std::hash<double> differs on == values %s: hypothesis hc of C18_hash_congr does not hold' % bad_h[:3],
                          {'pairs': bad_h[:10]}, found_input=bool(bad_h))
